@@ -356,6 +356,22 @@ func checkJSONRelink(c *Ctx, parse *ssa.Function, seqT types.Type) {
 			fromRecord := v.contains(func(x *Term) bool {
 				return x.Op == "field" && len(x.Args) == 1 && (strings.Contains(x.Args[0].String(), decT0(tb, dec)) || x.Args[0].Op == "outparam" || x.Args[0].Op == "field")
 			})
+			if v.Op == "const" && !strings.HasPrefix(v.Name, "nil") && st.Block() != um.Block() {
+				// a constant put into a field when other fields of the record say so
+				isRec := func(x *Term) bool {
+					return x.Op == "field" && len(x.Args) == 1 && (strings.Contains(x.Args[0].String(), decT0(tb, dec)) || x.Args[0].Op == "outparam" || x.Args[0].Op == "field")
+				}
+				for _, a := range pathCond(tb, um.Block(), st.Block()).atoms() {
+					if a.Atom.contains(isRec) {
+						recomputed = append(recomputed, strings.Join(pth, "")+" = "+v.String()+" when "+short(pathCondString([]condAtom{a})))
+						if at == token.NoPos {
+							at = st.Pos()
+						}
+						break
+					}
+				}
+				continue
+			}
 			if fromRecord && (v.Op == "binop" || v.Op == "call" || v.Op == "conv") {
 				recomputed = append(recomputed, strings.Join(pth, "")+" = "+short(v.String()))
 				if at == token.NoPos {
